@@ -34,3 +34,19 @@ class PlainGone:
 
     def __getnewargs__(self):
         return ('x', 'y')
+
+
+class PlainGoneFalsy:
+    """not persistent; its state is a FALSY value ({}, [], 0, '', (), False) that __setstate__ must still
+    receive — also after the placeholder of the missing class has been pickled again"""
+
+    def __init__(self, st):
+        self.__dict__['made'] = True
+        self.__dict__['st'] = st
+
+    def __getstate__(self):
+        return self.__dict__['st']
+
+    def __setstate__(self, state):
+        self.__dict__['st'] = state
+        self.__dict__['got'] = True
